@@ -198,6 +198,125 @@ def _rename(fn, mapping):
                 n.asname = mapping[nm]
 
 
+# ---------------------------------------------------------------------------------------------------
+# Idiom normalisation: equivalent spellings are brought to one canonical form before any rule looks at a tree (the confirmed
+# tree and every variant go through the same pass, so the rules only ever see canonical code).
+#   N1  T = e; return T          ->  return e              (T bound once, read once)
+#   N2  x = x <op> e             ->  x <op>= e
+#   N3  a > b / a >= b           ->  b < a / b <= a ;  CONST == x -> x == CONST
+#   N4  if not c: B else: A      ->  if c: A else: B       (else present, not an elif chain)
+#   N5  not (a <cmp> b)          ->  a <negated cmp> b ;  not not x -> x (in tests)
+# ---------------------------------------------------------------------------------------------------
+_NEG = {ast.Eq: ast.NotEq, ast.NotEq: ast.Eq, ast.Lt: ast.GtE, ast.GtE: ast.Lt, ast.Gt: ast.LtE, ast.LtE: ast.Gt,
+        ast.In: ast.NotIn, ast.NotIn: ast.In, ast.Is: ast.IsNot, ast.IsNot: ast.Is}
+
+
+def _constlike(n):
+    if isinstance(n, ast.Constant):
+        return True
+    if isinstance(n, ast.UnaryOp) and isinstance(n.operand, ast.Constant):
+        return True
+    if isinstance(n, ast.Name) and n.id.isupper():
+        return True
+    if isinstance(n, ast.Attribute) and n.attr.isupper():
+        return True
+    if isinstance(n, ast.Subscript) and isinstance(n.slice, ast.Constant) and isinstance(n.value, ast.Name) and \
+            (n.value.id.isupper() or n.value.id[:1].isupper()):
+        return True          # ENUM_D_TAG['DT_RELA'], DW_EH_encoding_flags['DW_EH_PE_absptr']
+    return False
+
+
+class _Norm(ast.NodeTransformer):
+    def __init__(self, counts):
+        self.counts = counts     # name -> (stores, loads) in the enclosing outermost function
+
+    def visit_UnaryOp(self, n):
+        self.generic_visit(n)
+        if isinstance(n.op, ast.Not):
+            o = n.operand
+            if isinstance(o, ast.UnaryOp) and isinstance(o.op, ast.Not) and isinstance(o.operand, (ast.Compare, ast.BoolOp, ast.UnaryOp)):
+                return o.operand
+            if isinstance(o, ast.Compare) and len(o.ops) == 1 and type(o.ops[0]) in _NEG:
+                return ast.copy_location(ast.Compare(left=o.left, ops=[_NEG[type(o.ops[0])]()], comparators=o.comparators), n)
+        return n
+
+    def visit_Compare(self, n):
+        self.generic_visit(n)
+        if len(n.ops) == 1:
+            op = n.ops[0]
+            l, r = n.left, n.comparators[0]
+            if isinstance(op, ast.Gt):
+                return ast.copy_location(ast.Compare(left=r, ops=[ast.Lt()], comparators=[l]), n)
+            if isinstance(op, ast.GtE):
+                return ast.copy_location(ast.Compare(left=r, ops=[ast.LtE()], comparators=[l]), n)
+            if isinstance(op, (ast.Eq, ast.NotEq)):
+                cl, cr = _constlike(l), _constlike(r)
+                # constants on the right; two non-constants (or two constants) in a fixed, spelling-independent order
+                if (cl and not cr) or (cl == cr and ast.dump(r) < ast.dump(l)):
+                    return ast.copy_location(ast.Compare(left=r, ops=[op], comparators=[l]), n)
+        return n
+
+    def visit_Assign(self, n):
+        self.generic_visit(n)
+        if len(n.targets) == 1 and isinstance(n.targets[0], ast.Name) and isinstance(n.value, ast.BinOp) and \
+                isinstance(n.value.left, ast.Name) and n.value.left.id == n.targets[0].id:
+            return ast.copy_location(ast.AugAssign(target=ast.Name(id=n.targets[0].id, ctx=ast.Store()), op=n.value.op, value=n.value.right), n)
+        return n
+
+    def visit_If(self, n):
+        self.generic_visit(n)
+        if n.orelse and not (len(n.orelse) == 1 and isinstance(n.orelse[0], ast.If)):
+            if isinstance(n.test, ast.UnaryOp) and isinstance(n.test.op, ast.Not):
+                return ast.copy_location(ast.If(test=n.test.operand, body=n.orelse, orelse=n.body), n)
+            # a two-armed if tests the positive form: a != b / a is not b / a not in b  ->  swap the arms
+            if isinstance(n.test, ast.Compare) and len(n.test.ops) == 1 and isinstance(n.test.ops[0], (ast.NotEq, ast.IsNot, ast.NotIn)):
+                pos = ast.copy_location(ast.Compare(left=n.test.left, ops=[_NEG[type(n.test.ops[0])]()], comparators=n.test.comparators), n.test)
+                return ast.copy_location(ast.If(test=pos, body=n.orelse, orelse=n.body), n)
+            # ... and of the two spellings of an order test the strict one: if a <= b: X else: Y  ->  if b < a: Y else: X
+            if isinstance(n.test, ast.Compare) and len(n.test.ops) == 1 and isinstance(n.test.ops[0], ast.LtE):
+                strict = ast.copy_location(ast.Compare(left=n.test.comparators[0], ops=[ast.Lt()], comparators=[n.test.left]), n.test)
+                return ast.copy_location(ast.If(test=strict, body=n.orelse, orelse=n.body), n)
+        return n
+
+    def _block(self, stmts):
+        out = []
+        i = 0
+        while i < len(stmts):
+            st = stmts[i]
+            nxt = stmts[i + 1] if i + 1 < len(stmts) else None
+            if isinstance(st, ast.Assign) and len(st.targets) == 1 and isinstance(st.targets[0], ast.Name) and isinstance(nxt, ast.Return) and \
+                    isinstance(nxt.value, ast.Name) and nxt.value.id == st.targets[0].id and self.counts.get(st.targets[0].id) == (1, 1):
+                out.append(ast.copy_location(ast.Return(value=st.value), st))
+                i += 2
+                continue
+            out.append(st)
+            i += 1
+        return out
+
+    def generic_visit(self, node):
+        super().generic_visit(node)
+        for fld in ('body', 'orelse', 'finalbody'):
+            b = getattr(node, fld, None)
+            if isinstance(b, list) and b and isinstance(b[0], ast.stmt):
+                setattr(node, fld, self._block(b))
+        return node
+
+
+def normalise(tree):
+    """Apply N1-N5 to every outermost function of the module (module/class level statements are left alone)."""
+    for qual, fn in outer_functions(tree):
+        counts = {}
+        for n in ast.walk(fn):
+            if isinstance(n, ast.Name):
+                s, l = counts.get(n.id, (0, 0))
+                counts[n.id] = (s + 1, l) if isinstance(n.ctx, (ast.Store, ast.Del)) else (s, l + 1)
+        nv = _Norm(counts)
+        fn.body = [nv.visit(st) for st in fn.body]
+        fn.body = nv._block(fn.body)
+    ast.fix_missing_locations(tree)
+    return tree
+
+
 def canonicalise(rel, tree, stats=None):
     """Rename the locals of every function of `tree` whose spelling differs from the reference table.  Returns the number
     of functions touched."""
@@ -256,6 +375,7 @@ def build_reference(sources):
             tree = ast.parse(src)
         except SyntaxError:
             continue
+        normalise(tree)
         fns = {}
         for qual, fn in outer_functions(tree):
             sigs = signatures(fn)
@@ -264,3 +384,62 @@ def build_reference(sources):
         if fns:
             out[rel] = fns
     return out
+
+
+# ---------------------------------------------------------------------------------------------------
+# Code text that compares modulo the idiom normalisation: rules that look for a statement or expression by its unparsed
+# text (`'x > 2' in src`) pass the needle through the same N2-N5 pass the trees went through, and ignore indentation.
+# ---------------------------------------------------------------------------------------------------
+import textwrap
+_norm_cache = {}
+
+
+def norm_text(snippet):
+    """unparsed canonical form of a code snippet (statements or an expression); the snippet itself when it does not parse"""
+    if snippet in _norm_cache:
+        return _norm_cache[snippet]
+    out = snippet
+    try:
+        t = ast.parse(textwrap.dedent(snippet))
+        nv = _Norm({})
+        t.body = [nv.visit(st) for st in t.body]
+        ast.fix_missing_locations(t)
+        out = ast.unparse(t)
+    except (SyntaxError, ValueError, IndentationError):
+        pass
+    _norm_cache[snippet] = out
+    return out
+
+
+def _flat(text):
+    return '\n'.join(l.strip() for l in text.split('\n'))
+
+
+class Code(str):
+    """str whose `in` and `==` compare modulo idiom normalisation and indentation"""
+    __hash__ = str.__hash__
+
+    def __contains__(self, needle):
+        if str.__contains__(self, needle):
+            return True
+        if not isinstance(needle, str):
+            return False
+        return _flat(norm_text(needle)) in _flat(str(self)) or _flat(needle) in _flat(str(self))
+
+    def __eq__(self, other):
+        if str.__eq__(self, other) is True:
+            return True
+        if isinstance(other, str):
+            return _flat(str(self)) == _flat(norm_text(other))
+        return False
+
+    def __ne__(self, other):
+        return not self.__eq__(other)
+
+    def replace(self, *a):
+        return Code(str.replace(self, *a))
+
+
+def U(node):
+    """ast.unparse returning Code"""
+    return Code(ast.unparse(node))
